@@ -471,6 +471,16 @@ class Weaver:
                 ed.insert(lp["body_open"] + 1, "\n            " + ls["body_start"] + "\n", "W5")
             if ls.get("body_end"):
                 ed.insert(lp["body_close"] - 1, "\n            " + ls["body_end"] + "\n        ", "W5")
+        # D8: guard-continue normal form in `for` loops (Verus has no `continue` in for-loops): a top-level statement
+        # `if C { continue; }` becomes `if !(C) { <the rest of the body> }`; only when every `continue` of the loop has that form
+        for lp in it.get("loops", []):
+            gs = lp.get("guard_continues") or []
+            if lp.get("kind") == "for" and gs and len(gs) == lp.get("continues"):
+                for g in gs:
+                    (s0, s1), (c0, c1) = g["stmt"], g["cond"]
+                    ed.replace(s0, c0, "if !(", "D8")
+                    ed.replace(c1, s1, ") {", "D8")
+                    ed.insert(lp["body_close"] - 1, "}", "D8")
         # R2 + W3: closures
         self.weave_closures(ed, src, fid, spec, it.get("closures", []), None)
         text, fired = ed.apply()
@@ -579,6 +589,16 @@ def emit_closure_fn(w, spec):
                 ed.replace(m["span"][0], m["span"][1], "" if m["stmt"] else "()", "D1")
             elif m["name"] in ASSERT_MACROS:
                 ed.replace(m["span"][0], m["span"][1], rewrite_assert(src[m["span"][0]:m["span"][1]].decode("utf-8"), m["name"]), "R1")
+            elif m["name"] in spec.get("macro_redirect", {}):
+                # R3 (macro form), as in emit_fn
+                txt = src[m["span"][0]:m["span"][1]].decode("utf-8")
+                mm = re.match(r"(?s)((?:[A-Za-z_][\w:]*)\s*!\s*[\(\[\{])(.*)([\)\]\}])(\s*;?\s*)$", txt)
+                if not mm:
+                    raise Undecided(f"R3: cannot parse macro call {txt[:60]!r}")
+                a0 = m["span"][0]
+                ed.replace(a0, a0 + len(mm.group(1).encode()), spec["macro_redirect"][m["name"]] + "(", "R3")
+                close_at = a0 + len((mm.group(1) + mm.group(2)).encode())
+                ed.replace(close_at, close_at + 1, ")", "R3")
     fid = spec.get("id", spec["path"] + f"#closure{k}")
     w.weave_closures(ed, src, fid, spec, cls, (bs, be), tuple(c["span"]))
     body, fired = ed.apply()
@@ -737,7 +757,9 @@ def apply_patch(text, p, fired, where):
         # `old` is a regular expression, `new` may use its groups: for redirects whose argument text is the code's own (kept verbatim)
         rx = re.compile(old)
         n = len(rx.findall(text))
-        if (cnt == "any" and n == 0 and not p.get("optional")) or (cnt != "any" and n != cnt):
+        if n == 0 and p.get("optional"):
+            return text
+        if (cnt == "any" and n == 0) or (cnt != "any" and n != cnt):
             raise Undecided(f"{p.get('rule', 'R4')} patch anchor /{old}/ occurs {n} times in {where}, expected {cnt}")
         fired.append(p.get("rule", "R4"))
         return rx.sub(new, text)
@@ -745,6 +767,8 @@ def apply_patch(text, p, fired, where):
         # whitespace-flexible anchor: any run of whitespace and line comments (or none) between the anchor's tokens matches
         rx = re.compile(r"(?:\s|//[^\n]*\n)*".join(re.escape(tok) for tok in old.split()))
         n = len(rx.findall(text))
+        if n == 0 and p.get("optional"):
+            return text
         if "nth" in p:
             ms = list(rx.finditer(text))
             if len(ms) <= p["nth"]:
